@@ -76,7 +76,7 @@ def make_files(tier, seed, mdl):
         return rng.choice(valid)[:rng.randrange(1, 10)] + b"\x00" + b"junk@x.com"
 
     files = []
-    nfiles = 300 if tier == "quick" else 5000
+    nfiles = 1500 if tier == "quick" else 20000
     fixed = [b"", b"\n", b"\n\n", b"a@b.com\n\nx@y.com\n", b"a@b.com\n \n", b" \n", b"\t", b"#only comment", b"#c\n#d\n", b"a@b.com", b"a@b.com\r\n",
              b"\r\n", b"a@b.com\r", b"\r", b" a@b.com \n", b"a" * 3000 + b"\n", b"\x01" * 700 + b"@b.com\n", b"a\xff@b.com\n",
              b"\n" * 50, ("é" * 3000).encode() + b"@a.com\n", b"x@y.zz\n" * 200]
